@@ -650,3 +650,491 @@ Proof.
 Qed.
 Lemma hist_i_eq b b' i : bk_hist b' = bk_hist b -> hist_i b' i = hist_i b i.
 Proof. unfold hist_i. intros ->. reflexivity. Qed.
+
+(* ---- the iteration keeps the structure of the records of participation idx ------------------------------------------------------ *)
+Lemma switch_norm A p0 pe0 s p1 pe1 setf so c1 :
+  iter_switch A p0 pe0 s = (p1, pe1, setf, so, c1) -> 0 <= ws_profit s ->
+  exists st pay,
+    pe1 = expo_upd pe0 (e_exp pe0 + pay) (e_bet pe0 + st) (e_ful pe0) /\
+    p_idx p1 = p_idx p0 /\ p_owner p1 = p_owner p0 /\ p_enf p1 = p_enf p0 /\ p_crtb p1 = p_crtb p0 + st /\ p_tba p1 = p_tba p0 + st /\
+    p_liq p1 = p_liq p0 /\ p_crl p1 = p_crl p0 /\
+    (so = None -> st = 0 /\ pay = 0 /\ p1 = p0 /\ setf = true) /\
+    (forall a b, so = Some (a, b) -> st = a /\ pay = b /\ fulfil_records p0 pe0 (wa_sel A) a b = (p1, pe1) /\
+                                   0 <= b <= avail_liq (wa_mult A) p0 pe0 /\ 0 < avail_liq (wa_mult A) p0 pe0).
+Proof.
+  intros H Hp. destruct (iter_switch_cases _ _ _ _ _ _ _ _ _ H Hp) as [(-> & -> & -> & ->)|(st & pay & -> & EF & Hb & Ha)].
+  - exists 0, 0. split; [destruct pe0; cbn; rewrite !Z.add_0_r; reflexivity|].
+    do 7 (split; [try reflexivity; lia|]). split; [intros _; repeat split; reflexivity|intros a0 b0 Hab; discriminate Hab].
+  - exists st, pay. destruct (fulfil_records_shape _ _ _ _ _ _ _ EF) as (E1 & E2 & E3 & E4 & E5 & E6 & E7 & E8 & _).
+    split; [exact E1|]. do 7 (split; [assumption|]). split; [intros Hn; discriminate Hn|].
+    intros a0 b0 Hab. injection Hab as <- <-. repeat split; try assumption; lia.
+Qed.
+
+Section Loop.
+Variable odds : list Z.
+Hypothesis Hndo : NoDup odds.
+Hypothesis Hsmall : zlen odds < U64.
+
+Lemma sumo_unful_bound b i : 0 <= sumo odds (unful b i) <= zlen odds.
+Proof.
+  split; [apply sumo_nonneg; intros o _; apply unful_range|apply sumo_le_len; intros o _; apply unful_range].
+Qed.
+
+Lemma pw_after_store A idx b p0 pe0 so setf news p1 pe1 p3 pe3 bk2 st pay :
+  stored A idx b p0 pe0 so setf news p1 pe1 p3 pe3 bk2 ->
+  wa_uids A = odds -> In (wa_sel A) odds ->
+  pw odds b idx p0 -> ge b (wa_sel A) idx = Some pe0 -> e_ful pe0 = false ->
+  pe1 = expo_upd pe0 (e_exp pe0 + pay) (e_bet pe0 + st) (e_ful pe0) ->
+  p_idx p1 = p_idx p0 -> p_enf p1 = p_enf p0 -> p_crtb p1 = p_crtb p0 + st ->
+  pw odds bk2 idx p3.
+Proof.
+  intros S Hu Hsel [P1 (r & R1 & R2 & R3) P3 P4] Hge0 Hful0 Epe1 Ei1 Eenf Ecrtb.
+  destruct S. destruct (ge_key _ _ _ _ Hge0) as (K1 & K2 & _).
+  assert (Hcur : forall o, In o odds -> ge bk2 o idx =
+            if o =? wa_sel A then Some pe3 else if zmem o (map e_odds news) then option_map ful (ge b o idx) else ge b o idx).
+  { intros o Ho. destruct (o =? wa_sel A) eqn:Es; [apply Z.eqb_eq in Es; subst o; exact st_ge_sel0|]. apply Z.eqb_neq in Es.
+    destruct (zmem o (map e_odds news)) eqn:Ez.
+    - unfold zmem in Ez. apply existsb_exists in Ez. destruct Ez as (y & Hy & Ey). apply Z.eqb_eq in Ey. subst y.
+      apply in_map_iff in Hy. destruct Hy as (u & Hu1 & Hu2). destruct (st_news0 u Hu2) as (_ & _ & _ & _ & ex & X1 & X2 & X3).
+      rewrite <- Hu1. rewrite (st_ge_news0 u Hu2), X1. cbn. rewrite X3. reflexivity.
+    - apply st_ge_other0. right. split; [exact Es|]. intros Hin. assert (zmem o (map e_odds news) = true); [|congruence].
+      unfold zmem. apply existsb_exists. exists o. split; [exact Hin|apply Z.eqb_refl]. }
+  assert (Hpe3 : pe3 = expo_upd pe0 (e_exp pe0 + pay) (e_bet pe0 + st) (if setf then true else e_ful pe0)).
+  { rewrite st_pe4, Epe1. destruct setf; reflexivity. }
+  constructor.
+  - rewrite st_p4. destruct setf; cbn; congruence.
+  - exists r. split; [exact R1|]. split.
+    + intros o Ho. rewrite (Hcur o Ho). destruct (R2 o Ho) as (e & G1 & G2 & G3 & G4).
+      destruct (o =? wa_sel A) eqn:Es.
+      * apply Z.eqb_eq in Es. rewrite Es in G1. rewrite Hge0 in G1. injection G1 as G1. subst e. exists pe3. rewrite Hpe3. cbn. repeat split; assumption.
+      * destruct (zmem o (map e_odds news)); rewrite G1; cbn; eexists; (split; [reflexivity|]); cbn; repeat split; assumption.
+    + rewrite (hist_i_eq b bk2 idx st_hist0). exact R3.
+  - (* the counter of unfulfilled exposures *)
+    destruct setf.
+    + set (K := wa_sel A :: map e_odds news).
+      assert (HK : sumo odds (unful bk2 idx) = sumo odds (unful b idx) - zlen K).
+      { apply sumo_dec_set; [exact Hndo| | |].
+        - unfold K. constructor; [|exact st_news_nd0]. intros Hin. apply in_map_iff in Hin. destruct Hin as (u & Hu1 & Hu2).
+          destruct (st_news0 u Hu2) as (_ & _ & _ & X & _). congruence.
+        - intros k [<-|Hk]; [exact Hsel|]. apply in_map_iff in Hk. destruct Hk as (u & Hu1 & Hu2).
+          destruct (st_news0 u Hu2) as (_ & _ & X & _). rewrite <- Hu1, <- Hu. exact X.
+        - intros o Ho. unfold unful. rewrite (Hcur o Ho). unfold K. cbn [zmem existsb].
+          destruct (R2 o Ho) as (e & G1 & _).
+          destruct (o =? wa_sel A) eqn:Es.
+          + apply Z.eqb_eq in Es. subst o. rewrite Hge0, Hpe3. cbn. rewrite Hful0. lia.
+          + cbn [orb]. change (existsb (Z.eqb o) (map e_odds news)) with (zmem o (map e_odds news)).
+            destruct (zmem o (map e_odds news)) eqn:Ez; [|destruct (ge b o idx) as [x|]; [destruct (e_ful x)|]; lia].
+            unfold zmem in Ez. apply existsb_exists in Ez. destruct Ez as (y & Hy & Ey). apply Z.eqb_eq in Ey. subst y.
+            apply in_map_iff in Hy. destruct Hy as (u & Hu1 & Hu2). destruct (st_news0 u Hu2) as (_ & _ & _ & _ & ex & X1 & X2 & X3).
+            rewrite <- Hu1, X1. cbn. rewrite X2. lia. }
+      rewrite st_p4. cbn [p_enf part_set_enf part_upd]. rewrite Eenf, P3.
+      assert (Hlen : zlen K = Z.of_nat (S (length news))) by (unfold K, zlen; cbn [length]; rewrite map_length; reflexivity).
+      pose proof (sumo_unful_bound bk2 idx) as B2. pose proof (sumo_unful_bound b idx) as B1.
+      rewrite npred_exact by lia. lia.
+    + rewrite st_p4, Eenf, P3. apply sumo_ext. intros o Ho. unfold unful. rewrite (Hcur o Ho).
+      assert (Hn : news = []) by (destruct news as [|u l]; [reflexivity|destruct (st_news0 u (or_introl eq_refl)) as (X & _); discriminate]).
+      rewrite Hn. cbn [map zmem existsb].
+      destruct (o =? wa_sel A) eqn:Es; [|reflexivity]. apply Z.eqb_eq in Es. subst o. rewrite Hge0, Hpe3. reflexivity.
+  - (* current-round total bet amount *)
+    assert (Ec3 : p_crtb p3 = p_crtb p0 + st) by (rewrite st_p4; destruct setf; cbn; exact Ecrtb).
+    rewrite Ec3, P4. symmetry. apply (sumo_point odds (ebet b idx) (ebet bk2 idx) (wa_sel A) st Hndo Hsel).
+    intros o Ho. unfold ebet. rewrite (Hcur o Ho).
+    destruct (o =? wa_sel A) eqn:Es.
+    + apply Z.eqb_eq in Es. subst o. rewrite Hge0, Hpe3. cbn. lia.
+    + destruct (zmem o (map e_odds news)); [|lia]. destruct (ge b o idx) as [x|]; cbn; lia.
+Qed.
+End Loop.
+
+Section Loop2.
+Variable odds : list Z.
+Hypothesis Hndo : NoDup odds.
+Hypothesis Hsmall : zlen odds < U64.
+
+Lemma filter_idem {A} (f : A -> bool) l : filter f (filter f l) = filter f l.
+Proof. induction l as [|x r IH]; cbn; [reflexivity|]. destruct (f x) eqn:E; cbn; [rewrite E, IH; reflexivity|exact IH]. Qed.
+
+Lemma pw_after_refresh A idx bk2 p3 bk5 :
+  refreshed A idx bk2 p3 bk5 -> wa_oddscnt A = zlen odds ->
+  NoDup (map ekey (bk_expo bk2)) -> (forall e, In e (bk_expo bk2) -> In (e_odds e) odds) ->
+  pw odds bk2 idx p3 -> pw odds bk5 idx (reset_part A p3).
+Proof.
+  intros R Hoc Hnd Hexp [P1 (r & R1 & R2 & R3) P3 P4]. destruct R.
+  assert (Hcur : forall o, In o odds -> exists e, ge bk2 o idx = Some e /\ ge bk5 o idx = Some (expo_next e) /\ e_odds e = o /\ e_part e = idx /\ e_round e = r).
+  { intros o Ho. destruct (R2 o Ho) as (e & G1 & G2 & G3 & G4). exists e. rewrite rf_ge_same0, G1. repeat split; assumption. }
+  constructor.
+  - exact P1.
+  - exists (r + 1). split; [lia|]. split.
+    + intros o Ho. destruct (Hcur o Ho) as (e & _ & G & G2 & G3 & G4). exists (expo_next e). cbn. repeat split; try assumption. lia.
+    + intros h Hh. unfold hist_i in Hh. rewrite rf_hist0, filter_app in Hh. apply in_app_or in Hh. destruct Hh as [Hh|Hh].
+      * destruct (R3 h Hh) as [X1 X2]. split; [lia|exact X2].
+      * rewrite filter_idem in Hh. apply in_filter_part in Hh. destruct Hh as [Hin Hp].
+        pose proof (Hexp h Hin) as Ho. destruct (Hcur _ Ho) as (e & G1 & _ & _ & _ & G4).
+        pose proof (ge_of_in _ _ Hnd Hin) as Hge. rewrite Hp, G1 in Hge. injection Hge as ->. split; [lia|exact Ho].
+  - cbn [p_enf reset_part part_upd]. rewrite Hoc. rewrite (sumo_const odds (unful bk5 idx) 1); [lia|].
+    intros o Ho. destruct (Hcur o Ho) as (e & _ & G & _). unfold unful. rewrite G. reflexivity.
+  - cbn [p_crtb reset_part part_upd]. rewrite (sumo_const odds (ebet bk5 idx) 0); [lia|].
+    intros o Ho. destruct (Hcur o Ho) as (e & _ & G & _). unfold ebet. rewrite G. reflexivity.
+Qed.
+
+(* ---- the whole book ---------------------------------------------------------------------------------------------------------------- *)
+Lemma map_pidx_len b b' : map p_idx (bk_parts b') = map p_idx (bk_parts b) -> zlen (bk_parts b') = zlen (bk_parts b).
+Proof. intros H. unfold zlen. rewrite <- (map_length p_idx (bk_parts b')), H, map_length. reflexivity. Qed.
+
+Lemma ekeys_in b b' e : map ekey (bk_expo b') = map ekey (bk_expo b) -> In e (bk_expo b') -> exists e0, In e0 (bk_expo b) /\ ekey e0 = ekey e.
+Proof. intros H Hin. exact (map_eq_in ekey _ _ e H Hin). Qed.
+
+Lemma bw_after_store A idx b p0 pe0 so setf news p1 pe1 p3 pe3 bk2 st pay :
+  stored A idx b p0 pe0 so setf news p1 pe1 p3 pe3 bk2 ->
+  wa_uids A = odds -> In (wa_sel A) odds -> bw odds b ->
+  get_part b idx = Some p0 -> ge b (wa_sel A) idx = Some pe0 -> e_ful pe0 = false ->
+  pe1 = expo_upd pe0 (e_exp pe0 + pay) (e_bet pe0 + st) (e_ful pe0) ->
+  p_idx p1 = p_idx p0 -> p_enf p1 = p_enf p0 -> p_crtb p1 = p_crtb p0 + st ->
+  bw odds bk2.
+Proof.
+  intros S Hu Hsel W Hgp Hge0 Hful0 Epe1 Ei1 Eenf Ecrtb.
+  pose proof (gp_idx _ _ _ Hgp) as Hi0.
+  assert (Hin0 : In p0 (bk_parts b)) by (apply get_part_in in Hgp; tauto).
+  assert (Hpw0 : pw odds b idx p0) by (rewrite <- Hi0; apply (bw_parts _ _ W); exact Hin0).
+  pose proof (pw_after_store odds Hndo Hsmall _ _ _ _ _ _ _ _ _ _ _ _ _ _ _ S Hu Hsel Hpw0 Hge0 Hful0 Epe1 Ei1 Eenf Ecrtb) as Hpw3.
+  destruct S. destruct W.
+  assert (Hnd2 : NoDup (map p_idx (bk_parts bk2))) by (rewrite st_pidx0; exact bw_nodup0).
+  constructor.
+  - exact Hnd2.
+  - intros p Hp. rewrite st_partcnt0. destruct (st_parts_in0 p Hp) as [->|Hp'].
+    + assert (p_idx p3 = idx) by (apply (gp_idx bk2); exact st_gp_same0). rewrite H. rewrite <- Hi0. apply bw_range0. exact Hin0.
+    + apply bw_range0. exact Hp'.
+  - rewrite st_partcnt0, bw_count0. symmetry. apply map_pidx_len. exact st_pidx0.
+  - rewrite st_oddscnt0. exact bw_oddscnt0.
+  - apply st_ix0. exact bw_ix0.
+  - rewrite st_ekeys0. exact bw_keys0.
+  - intros e He. destruct (ekeys_in _ _ _ st_ekeys0 He) as (e0 & H0 & Hk). unfold ekey in Hk. injection Hk as Hk1 Hk2.
+    destruct (bw_expo0 e0 H0) as [X1 (p & X2)]. rewrite <- Hk1, <- Hk2. split; [exact X1|].
+    destruct (Z.eq_dec (e_part e0) idx) as [->|Hne]; [exists p3; exact st_gp_same0|exists p; rewrite st_gp_other0 by exact Hne; exact X2].
+  - rewrite st_qkeys0. exact bw_qkeys0.
+  - intros p Hp. destruct (Z.eq_dec (p_idx p) idx) as [Hi|Hne].
+    + assert (p = p3). { pose proof (gp_of_in _ _ Hnd2 Hp) as G. rewrite Hi, st_gp_same0 in G. congruence. }
+      subst p. rewrite Hi. exact Hpw3.
+    + destruct (st_parts_in0 p Hp) as [->|Hp']; [exfalso; apply Hne; apply (gp_idx bk2); exact st_gp_same0|].
+      apply (pw_ext odds b bk2); [intros o; apply st_ge_other0; left; exact Hne|apply hist_i_eq; exact st_hist0|apply bw_parts0; exact Hp'].
+Qed.
+End Loop2.
+
+From Sge Require Import Proofs.WagerBounds.
+
+Section Loop3.
+Variable odds : list Z.
+Hypothesis Hndo : NoDup odds.
+Hypothesis Hsmall : zlen odds < U64.
+
+Lemma filter_part_disjoint (l : list expo) i idx : i <> idx ->
+  filter (fun h => e_part h =? i) (filter (fun e => e_part e =? idx) l) = [].
+Proof.
+  intros Hne. induction l as [|x r IH]; cbn; [reflexivity|]. destruct (e_part x =? idx) eqn:E1; cbn; [|exact IH].
+  apply Z.eqb_eq in E1. destruct (e_part x =? i) eqn:E2; [apply Z.eqb_eq in E2; congruence|exact IH].
+Qed.
+Lemma hist_i_refresh_other A idx bk2 p3 bk5 i : refreshed A idx bk2 p3 bk5 -> i <> idx -> hist_i bk5 i = hist_i bk2 i.
+Proof.
+  intros R Hne. destruct R. unfold hist_i. rewrite rf_hist0, filter_app, (filter_part_disjoint _ _ _ Hne), app_nil_r. reflexivity.
+Qed.
+
+Lemma bw_after_refresh A idx bk2 p3 bk5 :
+  refreshed A idx bk2 p3 bk5 -> wa_oddscnt A = zlen odds -> bw odds bk2 -> get_part bk2 idx = Some p3 -> bw odds bk5.
+Proof.
+  intros R Hoc W Hgp.
+  pose proof (gp_idx _ _ _ Hgp) as Hi3.
+  assert (Hin3 : In p3 (bk_parts bk2)) by (apply get_part_in in Hgp; tauto).
+  assert (Hpw3 : pw odds bk2 idx p3) by (rewrite <- Hi3; apply (bw_parts _ _ W); exact Hin3).
+  assert (Hpw5 : pw odds bk5 idx (reset_part A p3)).
+  { eapply pw_after_refresh; try eassumption; [apply (bw_keys _ _ W)|intros e He; apply (bw_expo _ _ W e He)]. }
+  pose proof (fun i => hist_i_refresh_other A idx bk2 p3 bk5 i R) as Hho.
+  destruct R. destruct W.
+  assert (Hnd5 : NoDup (map p_idx (bk_parts bk5))) by (rewrite rf_pidx0; exact bw_nodup0).
+  constructor.
+  - exact Hnd5.
+  - intros p Hp. rewrite rf_partcnt0. destruct (rf_parts_in0 p Hp) as [->|Hp']; [|apply bw_range0; exact Hp'].
+    change (p_idx (reset_part A p3)) with (p_idx p3). apply bw_range0. exact Hin3.
+  - rewrite rf_partcnt0, bw_count0. symmetry. apply map_pidx_len. exact rf_pidx0.
+  - rewrite rf_oddscnt0. exact bw_oddscnt0.
+  - exact rf_ix0.
+  - exact rf_keys0.
+  - intros e He. destruct (rf_expo_in0 e He) as (e0 & H0 & Hk). unfold ekey in Hk. injection Hk as Hk1 Hk2.
+    destruct (bw_expo0 e0 H0) as [X1 (p & X2)]. rewrite <- Hk1, <- Hk2. split; [exact X1|].
+    destruct (Z.eq_dec (e_part e0) idx) as [->|Hne]; [eexists; exact rf_gp_same0|exists p; rewrite rf_gp_other0 by exact Hne; exact X2].
+  - rewrite rf_qkeys0. exact bw_qkeys0.
+  - intros p Hp. destruct (Z.eq_dec (p_idx p) idx) as [Hi|Hne].
+    + assert (p = reset_part A p3). { pose proof (gp_of_in _ _ Hnd5 Hp) as G. rewrite Hi, rf_gp_same0 in G. congruence. }
+      subst p. rewrite Hi. exact Hpw5.
+    + destruct (rf_parts_in0 p Hp) as [->|Hp']; [exfalso; apply Hne; exact Hi3|].
+      apply (pw_ext odds bk2 bk5); [intros o; apply rf_ge_other0; exact Hne| |apply bw_parts0; exact Hp'].
+      apply Hho. exact Hne.
+Qed.
+
+(* ---- the queues of the other outcomes ------------------------------------------------------------------------------------------------ *)
+Definition qinv (sel : Z) (b : book) : Prop := forall o ql, o <> sel -> get_queue b o = Some ql -> queue_ok b o ql.
+
+Lemma qinv_after_store A idx b p0 pe0 so setf news p1 pe1 p3 pe3 bk2 :
+  stored A idx b p0 pe0 so setf news p1 pe1 p3 pe3 bk2 -> qinv (wa_sel A) b -> qinv (wa_sel A) bk2.
+Proof.
+  intros S Q o ql' Hne Hq'. destruct S.
+  assert (Hk : In o (map fst (bk_queues b))) by (rewrite <- st_qkeys0; eapply gq_in_keys; exact Hq').
+  destruct (keys_in_gq _ _ Hk) as (ql & Hq). destruct (Q o ql Hne Hq) as [Hnd Hel].
+  destruct (in_dec Z.eq_dec o (map e_odds news)) as [Hin|Hni].
+  - rewrite (st_q_news0 o ql Hin Hq) in Hq'. injection Hq' as <-. split; [apply NoDup_filter; exact Hnd|].
+    intros i Hi. apply filter_In in Hi. destruct Hi as [Hi Hx]. apply negb_true_iff, Z.eqb_neq in Hx.
+    destruct (Hel i Hi) as (p & e & X1 & X2 & X3). exists p, e. rewrite st_gp_other0 by exact Hx. rewrite st_ge_other0 by (left; exact Hx). tauto.
+  - rewrite (st_q_other0 o Hni), Hq in Hq'. injection Hq' as <-. split; [exact Hnd|].
+    intros i Hi. destruct (Hel i Hi) as (p & e & X1 & X2 & X3).
+    destruct (Z.eq_dec i idx) as [->|Hx].
+    + exists p3, e. rewrite st_ge_other0 by (right; split; assumption). tauto.
+    + exists p, e. rewrite st_gp_other0 by exact Hx. rewrite st_ge_other0 by (left; exact Hx). tauto.
+Qed.
+
+Lemma requeue1_notin idx l : ~ In idx l -> requeue1 idx l = l ++ [idx].
+Proof.
+  intros Hn. unfold requeue1. destruct l as [|h t]; [reflexivity|]. destruct (h =? idx) eqn:E; [|reflexivity].
+  apply Z.eqb_eq in E. exfalso. apply Hn. left. exact E.
+Qed.
+
+Lemma qinv_after_refresh A idx bk2 p3 bk5 :
+  refreshed A idx bk2 p3 bk5 -> bw odds bk2 -> get_part bk2 idx = Some p3 -> qinv (wa_sel A) bk2 ->
+  (forall o e, ge bk2 o idx = Some e -> e_ful e = true) -> qinv (wa_sel A) bk5.
+Proof.
+  intros R W Hgp Q Hall o ql' Hne Hq'. destruct R.
+  rewrite rf_queue0 in Hq'. destruct (get_queue bk2 o) as [ql|] eqn:Hq; [|discriminate]. cbn in Hq'. injection Hq' as <-.
+  destruct (Q o ql Hne Hq) as [Hnd Hel].
+  assert (Hni : ~ In idx ql). { intros Hin. destruct (Hel idx Hin) as (p & e & _ & X2 & X3). rewrite (Hall o e X2) in X3. discriminate. }
+  rewrite (requeue1_notin _ _ Hni). split; [apply NoDup_snoc; assumption|].
+  intros i Hi. apply in_app_or in Hi. destruct Hi as [Hi|[<-|[]]].
+  - destruct (Hel i Hi) as (p & e & X1 & X2 & X3). assert (Hx : i <> idx) by (intros ->; exact (Hni Hi)).
+    exists p, e. rewrite rf_gp_other0, rf_ge_other0 by exact Hx. tauto.
+  - assert (Ho : In o odds) by (rewrite <- (bw_qkeys _ _ W); eapply gq_in_keys; exact Hq).
+    pose proof (gp_idx _ _ _ Hgp) as Hi3. assert (Hin3 : In p3 (bk_parts bk2)) by (apply get_part_in in Hgp; tauto).
+    destruct (pw_round _ _ _ _ (bw_parts _ _ W p3 Hin3)) as (r & _ & R2 & _). rewrite Hi3 in R2.
+    destruct (R2 o Ho) as (e & G1 & _). eexists _, (expo_next e). rewrite rf_gp_same0, rf_ge_same0, G1. repeat split.
+Qed.
+End Loop3.
+
+(* ---- the loop ------------------------------------------------------------------------------------------------------------------------------ *)
+Section Loop4.
+Variable odds : list Z.
+Hypothesis Hndo : NoDup odds.
+Hypothesis Hsmall : zlen odds < U64.
+Variable A : wargs.
+Hypothesis Huids : wa_uids A = odds.
+Hypothesis Hoc : wa_oddscnt A = zlen odds.
+Hypothesis Hsel : In (wa_sel A) odds.
+
+Definition unful_in (b : book) (i : Z) : Prop :=
+  exists p e, get_part b i = Some p /\ ge b (wa_sel A) i = Some e /\ e_ful e = false.
+
+Record lfin (s : wstate) : Prop := {
+  lf_bw : bw odds (ws_book s);
+  lf_qinv : qinv (wa_sel A) (ws_book s);
+  lf_uq : queue_ok (ws_book s) (wa_sel A) (ws_uq s) }.
+
+Record linv (B : Z) (q : list Z) (s : wstate) : Prop := {
+  li_bw : bw odds (ws_book s);
+  li_qinv : qinv (wa_sel A) (ws_book s);
+  li_uq : exists R, ws_uq s = q ++ R /\ NoDup (q ++ R) /\ (forall i, In i R -> unful_in (ws_book s) i);
+  li_q : forall i, In i q -> unful_in (ws_book s) i /\ exists it, fmap_get (ws_fmap s) i = Some it /\ agrees (ws_book s) (wa_sel A) i it;
+  li_bound : wbound B s }.
+
+Lemma linv_fin B q s : linv B q s -> lfin s.
+Proof.
+  intros [W Q (R & E & Hnd & HR) Hq _]. constructor; [exact W|exact Q|]. rewrite E. split; [exact Hnd|].
+  intros i Hi. apply in_app_or in Hi. destruct Hi as [Hi|Hi]; [apply (Hq i Hi)|apply HR; exact Hi].
+Qed.
+
+Lemma wager_setf_eq idx s it pe0 p1 pe1 setf so c1 :
+  fmap_get (ws_fmap s) idx = Some it -> fi_pe it = Some pe0 ->
+  iter_switch A (fi_part it) pe0 s = (p1, pe1, setf, so, c1) -> wager_setf A idx s = setf.
+Proof.
+  intros Hf Hpe H. unfold wager_setf. rewrite Hf, Hpe. unfold iter_switch in H.
+  destruct (avail_liq (wa_mult A) (fi_part it) pe0 <=? 0); [inv H; reflexivity|].
+  destruct (avail_liq (wa_mult A) (fi_part it) pe0 <=? dec_trunc_int (ws_profit s)).
+  - destruct (bet_amount_int _ _ _). destruct (fulfil_records _ _ _ _ _). inv H. reflexivity.
+  - destruct (fulfil_records _ _ _ _ _). inv H. reflexivity.
+Qed.
+
+Lemma wager_iter_linv B idx rest s s' :
+  wager_iter A idx s = Some s' -> linv B (idx :: rest) s ->
+  if wager_setf A idx s then linv B rest s' else lfin s'.
+Proof.
+  intros H L. pose proof (wager_iter_bound B _ _ _ _ H (li_bound _ _ _ L)) as Hb'.
+  destruct L as [W Q (R & EU & NU & HR) Hq Hb].
+  destruct (Hq idx (or_introl eq_refl)) as [(p0' & e0' & Hgp & Hge0 & Hful0) (it & Hf & Hag)].
+  unfold wager_iter in H. rewrite Hf in H.
+  pose proof Hag as (Ag1 & Ag2 & Ag3). rewrite Hgp in Ag1. injection Ag1 as Ep0. subst p0'.
+  rewrite Hge0 in Ag2. rewrite Ag2 in H. rename e0' into pe0.
+  destruct (iter_switch A (fi_part it) pe0 s) as [[[[p1 pe1] setf] so] c1] eqn:ES.
+  rewrite (wager_setf_eq _ _ _ _ _ _ _ _ _ Hf Ag2 ES).
+  destruct (switch_norm _ _ _ _ _ _ _ _ _ ES (wb_profit _ _ Hb)) as (st & pay & Epe1 & Ei1 & _ & Eenf & Ecrtb & _ & _ & _ & _ & _).
+  destruct (iter_betside A (fi_part it) so s) as [[[[ba fu] pr] pa] bk0] eqn:EB.
+  destruct (iter_fulfilled A idx it setf p1 pe1 (ws_uq s) bk0) as [[[[p3 pe3] uq3] bk1]|] eqn:EF; [|discriminate].
+  pose proof (gp_idx _ _ _ Hgp) as Hi0.
+  destruct (ge_key _ _ _ _ Hge0) as (K1 & K2 & _).
+  assert (Hk1 : ekey pe1 = (wa_sel A, idx)) by (rewrite Epe1; unfold ekey; cbn; congruence).
+  destruct (iter_store A idx it s pe0 p1 pe1 setf so c1 ba fu pr pa bk0 p3 pe3 uq3 bk1 Hag Ag2 ltac:(rewrite Huids; exact Hndo) ES EB EF ltac:(congruence) Hk1)
+    as (news & Euq3 & S).
+  set (bk2 := set_part (set_expo bk1 pe3) p3) in *.
+  assert (W2 : bw odds bk2) by (eapply (bw_after_store odds Hndo Hsmall); eassumption).
+  assert (Q2 : qinv (wa_sel A) bk2) by (eapply qinv_after_store; eassumption).
+  assert (Hgp3 : get_part bk2 idx = Some p3) by (destruct S; assumption).
+  assert (Hge3 : ge bk2 (wa_sel A) idx = Some pe3) by (destruct S; assumption).
+  assert (Hful3 : e_ful pe3 = setf).
+  { destruct S. rewrite st_pe4, Epe1. destruct setf; cbn; [reflexivity|exact Hful0]. }
+  (* reads of the other participations are unchanged *)
+  assert (Hoth : forall i, i <> idx -> get_part bk2 i = get_part (ws_book s) i /\ forall o, ge bk2 o i = ge (ws_book s) o i).
+  { intros i Hne. destruct S. split; [apply st_gp_other0; exact Hne|intros o; apply st_ge_other0; left; exact Hne]. }
+  assert (Huf_oth : forall i, i <> idx -> unful_in (ws_book s) i -> unful_in bk2 i).
+  { intros i Hne (p & e & X1 & X2 & X3). destruct (Hoth i Hne) as [Y1 Y2]. exists p, e. rewrite Y1, Y2. tauto. }
+  assert (Hag_oth : forall i x, i <> idx -> agrees (ws_book s) (wa_sel A) i x -> agrees bk2 (wa_sel A) i x).
+  { intros i x Hne (X1 & X2 & X3). destruct (Hoth i Hne) as [Y1 Y2]. unfold agrees. rewrite Y1, Y2. repeat split; try assumption.
+    intros o. rewrite Y2. apply X3. }
+  cbn [app] in EU, NU. pose proof (NoDup_cons_iff idx (rest ++ R)) as Hcons. apply Hcons in NU. destruct NU as [Hni NU']. clear Hcons.
+  destruct ((p_enf p3 =? 0) && eligible_pre p3) eqn:ERf.
+  - (* all exposures of idx are fulfilled and liquidity remains: next round *)
+    apply andb_true_iff in ERf. destruct ERf as [Eenf0 Eel]. apply Z.eqb_eq in Eenf0.
+    assert (Hin3 : In p3 (bk_parts bk2)) by (apply get_part_in in Hgp3; tauto).
+    pose proof (gp_idx _ _ _ Hgp3) as Hi3.
+    assert (Hpw3 : pw odds bk2 idx p3) by (rewrite <- Hi3; apply (bw_parts _ _ W2); exact Hin3).
+    assert (Hallful : forall o e, ge bk2 o idx = Some e -> e_ful e = true).
+    { intros o e Hg. destruct (ge_key _ _ _ _ Hg) as (X1 & X2 & X3). destruct (bw_expo _ _ W2 e X3) as [Ho _]. rewrite X1 in Ho.
+      pose proof (sumo_zero_each odds (unful bk2 idx) (fun x _ => proj1 (unful_range bk2 idx x))) as Hz.
+      rewrite <- (pw_enf _ _ _ _ Hpw3), Eenf0 in Hz. specialize (Hz eq_refl o Ho). unfold unful in Hz. rewrite Hg in Hz.
+      destruct (e_ful e); [reflexivity|discriminate]. }
+    assert (Hsetf : setf = true).
+    { destruct setf; [reflexivity|]. rewrite (Hallful _ _ Hge3) in Hful3. discriminate. }
+    clear Hful3. subst setf.
+    destruct (iter_refresh A idx it p3 bk2 (ws_fmap s) uq3) as [[bk5 fm2] uq5] eqn:ER.
+    destruct (iter_refresh_effect _ _ _ _ _ _ _ _ _ _ ER Hgp3 Eel (bw_ix _ _ W2) (bw_keys _ _ W2)) as (Rf & Euq5 & Hfm5).
+    { intros e h He Hp Hh Hk. destruct (pw_round _ _ _ _ Hpw3) as (r & _ & R2 & R3).
+      destruct (bw_expo _ _ W2 e He) as [Ho _]. destruct (R2 _ Ho) as (e' & G1 & _ & _ & G4).
+      pose proof (ge_of_in _ _ (bw_keys _ _ W2) He) as Hge. rewrite Hp, G1 in Hge. injection Hge as ->.
+      apply expo_is_key in Hk. destruct Hk as [_ Hk]. rewrite Hp in Hk.
+      assert (Hhi : In h (hist_i bk2 idx)) by (unfold hist_i; apply filter_In; split; [exact Hh|apply Z.eqb_eq; exact Hk]).
+      destruct (R3 h Hhi) as [X _]. lia. }
+    injection H as Hs'. subst s'.
+    assert (W5 : bw odds bk5) by (eapply (bw_after_refresh odds); eassumption).
+    assert (Q5 : qinv (wa_sel A) bk5) by (eapply (qinv_after_refresh odds); eassumption).
+    assert (Hoth5 : forall i, i <> idx -> get_part bk5 i = get_part bk2 i /\ forall o, ge bk5 o i = ge bk2 o i).
+    { intros i Hne. destruct Rf. split; [apply rf_gp_other0; exact Hne|intros o; apply rf_ge_other0; exact Hne]. }
+    cbv beta iota. constructor; cbn [ws_book ws_fmap ws_uq].
+    + exact W5.
+    + exact Q5.
+    + exists (R ++ [idx]). rewrite Euq5, Euq3, EU. cbn [tl]. rewrite <- app_assoc. split; [reflexivity|]. split.
+      * rewrite app_assoc. apply NoDup_snoc; assumption.
+      * intros i Hi. apply in_app_or in Hi. destruct Hi as [Hi|[<-|[]]].
+        -- assert (Hne : i <> idx) by (intros ->; apply Hni; apply in_or_app; right; exact Hi).
+           destruct (Huf_oth i Hne (HR i Hi)) as (p & e & X1 & X2 & X3). destruct (Hoth5 i Hne) as [Y1 Y2].
+           exists p, e. rewrite Y1, Y2. tauto.
+        -- destruct Rf. destruct (pw_round _ _ _ _ Hpw3) as (r & _ & R2 & _). destruct (R2 _ Hsel) as (e & G1 & _).
+           eexists _, (expo_next e). rewrite rf_gp_same0, rf_ge_same0, G1. repeat split.
+    + intros i Hi. assert (Hne : i <> idx) by (intros ->; apply Hni; apply in_or_app; left; exact Hi).
+      destruct (Hq i (or_intror Hi)) as [Hu (x & Hx & Hax)]. destruct (Hoth5 i Hne) as [Y1 Y2]. split.
+      * destruct (Huf_oth i Hne Hu) as (p & e & X1 & X2 & X3). exists p, e. rewrite Y1, Y2. tauto.
+      * exists x. split; [rewrite Hfm5 by exact Hne; exact Hx|].
+        destruct (Hag_oth i x Hne Hax) as (X1 & X2 & X3). unfold agrees. rewrite Y1, Y2. repeat split; try assumption.
+        intros o. rewrite Y2. apply X3.
+    + exact Hb'.
+  - injection H as Hs'. subst s'. destruct setf.
+    + cbv beta iota. constructor; cbn [ws_book ws_fmap ws_uq].
+      * exact W2.
+      * exact Q2.
+      * exists R. rewrite Euq3, EU. cbn [tl]. split; [reflexivity|]. split; [exact NU'|].
+        intros i Hi. apply Huf_oth; [intros ->; apply Hni; apply in_or_app; right; exact Hi|apply HR; exact Hi].
+      * intros i Hi. assert (Hne : i <> idx) by (intros ->; apply Hni; apply in_or_app; left; exact Hi).
+        destruct (Hq i (or_intror Hi)) as [Hu (x & Hx & Hax)]. split; [apply Huf_oth; assumption|].
+        exists x. split; [exact Hx|apply Hag_oth; assumption].
+      * exact Hb'.
+    + cbv beta iota. constructor; cbn [ws_book ws_uq].
+      * exact W2.
+      * exact Q2.
+      * rewrite Euq3, EU. split; [constructor; assumption|].
+        intros i [<-|Hi]; [exists p3, pe3; tauto|].
+        assert (Hne : i <> idx) by (intros ->; exact (Hni Hi)).
+        apply Huf_oth; [exact Hne|]. apply in_app_or in Hi. destruct Hi as [Hi|Hi]; [apply (Hq i (or_intror Hi))|apply HR; exact Hi].
+Qed.
+End Loop4.
+
+Section Loop5.
+Variable odds : list Z.
+Hypothesis Hndo : NoDup odds.
+Hypothesis Hsmall : zlen odds < U64.
+Variable A : wargs.
+Hypothesis Huids : wa_uids A = odds.
+Hypothesis Hoc : wa_oddscnt A = zlen odds.
+Hypothesis Hsel : In (wa_sel A) odds.
+
+(* the branch that does not remove the head of the queue covers the whole remaining profit: the loop stops after it *)
+Lemma last_fill_ends idx s s' :
+  wager_iter A idx s = Some s' -> wager_setf A idx s = false -> 0 <= ws_profit s -> ws_profit s' < PREC.
+Proof.
+  unfold wager_iter, wager_setf. intros H Hs Hp.
+  destruct (fmap_get (ws_fmap s) idx) as [it|]; [|discriminate].
+  destruct (fi_pe it) as [pe0|]; [|discriminate].
+  unfold iter_switch in H.
+  destruct (avail_liq (wa_mult A) (fi_part it) pe0 <=? 0); [discriminate|].
+  destruct (avail_liq (wa_mult A) (fi_part it) pe0 <=? dec_trunc_int (ws_profit s)); [discriminate|].
+  destruct (fulfil_records _ _ _ _ _) as [p e].
+  cbn [iter_betside] in H.
+  match type of H with context [iter_fulfilled ?a ?b ?c ?d ?e ?f ?g ?h] => destruct (iter_fulfilled a b c d e f g h) as [[[[p3 pe3] uq3] bk1]|] end; [|discriminate].
+  assert (Hr : ws_profit s - dec_of_int (dec_trunc_int (ws_profit s)) < PREC).
+  { unfold dec_trunc_int, dec_of_int. rewrite chop_trunc_nonneg by exact Hp. pose proof PREC_pos as HP.
+    pose proof (Z.mod_pos_bound (ws_profit s) PREC HP). rewrite Z.mod_eq in H0 by lia. lia. }
+  destruct ((p_enf p3 =? 0) && eligible_pre p3).
+  - destruct (iter_refresh _ _ _ _ _ _ _) as [[bk5 fm2] uq5]. injection H as <-. cbn. exact Hr.
+  - injection H as <-. cbn. exact Hr.
+Qed.
+
+Lemma wager_loop_lfin B fuel : forall q s s', wager_loop fuel A q s = Some s' -> linv odds A B q s -> lfin odds A s'.
+Proof.
+  induction fuel as [|f IH]; intros q s s' H L; destruct q as [|idx rest]; cbn [wager_loop] in H.
+  - injection H as <-. eapply linv_fin; exact L.
+  - discriminate.
+  - injection H as <-. eapply linv_fin; exact L.
+  - destruct (wager_iter A idx s) as [s1|] eqn:E; [|discriminate].
+    pose proof (wager_iter_linv odds Hndo Hsmall A Huids Hoc Hsel B idx rest s s1 E L) as H1.
+    destruct (wager_setf A idx s) eqn:Es.
+    + destruct ((ws_profit s1 <? PREC) || _); [injection H as <-; eapply linv_fin; exact H1|]. eapply IH; eassumption.
+    + pose proof (last_fill_ends _ _ _ E Es (wb_profit _ _ (li_bound _ _ _ _ _ L))) as Hlt.
+      apply Z.ltb_lt in Hlt. rewrite Hlt in H. cbn [orb] in H. injection H as <-. exact H1.
+Qed.
+
+Lemma pw_set_queue b o q i p : pw odds b i p -> pw odds (set_queue b o q) i p.
+Proof. apply pw_ext; reflexivity. Qed.
+
+Lemma bw_set_queue b o q : bw odds b -> In o odds -> bw odds (set_queue b o q).
+Proof.
+  intros W Ho. destruct W. constructor; try assumption.
+  - cbn [bk_queues set_queue book_upd]. rewrite <- bw_qkeys0. apply (qkeys_set_queue b o q). rewrite bw_qkeys0. exact Ho.
+  - intros p Hp. apply pw_set_queue. apply bw_parts0. exact Hp.
+Qed.
+
+(* ProcessWager keeps the book well formed and every fulfilment queue duplicate-free and made of participations whose
+   exposure on that outcome is still open *)
+Theorem process_wager_bw b betamt profit bettor fee b' parts effs :
+  process_wager b A betamt profit bettor fee = Some (b', parts, effs) ->
+  bw odds b -> queues_ok b -> 0 <= betamt -> 0 <= profit -> bw odds b' /\ queues_ok b'.
+Proof.
+  unfold process_wager. intros H W Q Hb Hp.
+  destruct (get_queue b (wa_sel A)) as [q|] eqn:Eq; [|discriminate].
+  destruct (init_fmap b (wa_sel A)) as [fm|] eqn:EI; [|discriminate].
+  match type of H with context [wager_loop ?f ?a ?qq ?s0] => destruct (wager_loop f a qq s0) as [s|] eqn:EL end; [|discriminate].
+  destruct (PREC <=? ws_profit s); [discriminate|].
+  destruct (ws_parts s); [discriminate|]. injection H as <- _ _.
+  destruct (Q _ _ Eq) as [Hnd Hel].
+  assert (L : lfin odds A s).
+  { eapply (wager_loop_lfin betamt); [exact EL|]. constructor; cbn [ws_book ws_fmap ws_uq].
+    - exact W.
+    - intros o ql _ Hq. exact (Q o ql Hq).
+    - exists []. rewrite app_nil_r. split; [reflexivity|]. split; [exact Hnd|intros i []].
+    - intros i Hi. destruct (Hel i Hi) as (p & e & X1 & X2 & X3). split; [exists p, e; tauto|].
+      eapply init_fmap_agrees; eassumption.
+    - constructor; cbn; try lia. constructor. }
+  destruct L as [W' Q' U']. split; [apply bw_set_queue; assumption|].
+  intros o ql Hq. destruct (Z.eq_dec o (wa_sel A)) as [->|Hne].
+  - rewrite gq_set_queue_same in Hq. injection Hq as <-. exact U'.
+  - rewrite gq_set_queue_other in Hq by exact Hne. exact (Q' o ql Hne Hq).
+Qed.
+End Loop5.
